@@ -5,7 +5,6 @@ import (
 	"encoding/hex"
 	"fmt"
 	"reflect"
-	"sort"
 	"time"
 
 	"github.com/elastos/Elastos.ELA/core/types/interfaces"
@@ -20,15 +19,11 @@ func inactiveCount(p *state.Producer) int {
 }
 
 // hashDump folds a sub-dump into one entry (long arbiter lists).
-func hashDump(d dump) string {
-	keys := make([]string, 0, len(d))
-	for k := range d {
-		keys = append(keys, k)
-	}
-	sort.Strings(keys)
+func hashDump(d *dump) string {
+	d.sort()
 	h := sha256.New()
-	for _, k := range keys {
-		fmt.Fprintf(h, "%s=%s\n", k, d[k])
+	for _, e := range d.e {
+		fmt.Fprintf(h, "%s=%s\n", e.k, e.v)
 	}
 	return hex.EncodeToString(h.Sum(nil))[:24]
 }
@@ -45,31 +40,10 @@ func probe() {
 		in.best = h
 		in.arb.ProcessBlock(mkBlock(h, txs), nil)
 	}
-	d := in.dump()
-	cnt := map[string]int{}
-	for k := range d {
-		c := fieldClass(k)
-		if len(c) > 60 {
-			c = c[:60]
-		}
-		cnt[c]++
-	}
-	for k, v := range cnt {
-		if v > 20 {
-			fmt.Println(v, k)
-		}
-	}
 	t0 := time.Now()
 	for i := 0; i < 1000; i++ {
 		in.dump()
 	}
-	fmt.Println("1000 dumps", time.Since(t0))
-	t0 = time.Now()
-	for i := 0; i < 200; i++ {
-		x := newInst()
-		x.free()
-	}
-	fmt.Println("200 newInst", time.Since(t0))
-	fmt.Println("entries", len(d), "LIH", in.arb.State.LastIrreversibleHeight)
+	fmt.Println("1000 dumps", time.Since(t0), "entries", len(in.dump().e))
 	fmt.Println("rollback", in.arb.RollbackTo(14), "LIH", in.arb.State.LastIrreversibleHeight, "DPOSStart", in.arb.State.DPOSStartHeight)
 }
